@@ -188,14 +188,14 @@ def _kf_label_dedup(family, case, disc):
 
 
 FAMILIES = [
-    Family("pandas", evaluate, strategy=strategy, n_quick=600, n_thorough=5000, shards_quick=4, shards_thorough=16,
+    Family("pandas", evaluate, strategy=strategy, n_quick=1200, n_thorough=5000, shards_quick=4, shards_thorough=16,
            required_labels=["dup-index-labels", "verdict-depends-on-selection", "opts=sample", "kind=series", "kind=column"]),
 ]
 
 from . import plx  # noqa: E402
 
 FAMILIES.append(
-    Family("polars", plx.eval_c20, strategy=plx.strat_c20, n_quick=350, n_thorough=3000, shards_quick=3, shards_thorough=12,
+    Family("polars", plx.eval_c20, strategy=plx.strat_c20, n_quick=700, n_thorough=3000, shards_quick=3, shards_thorough=12,
            required_labels=["container=lf_full", "verdict-depends-on-selection", "opts=head", "opts=tail"]))
 
 
